@@ -40,6 +40,7 @@ type Ctx struct {
 	domCache   map[*ssa.Function]*loopInfo
 	keyEval    *keyEvaluator
 	roles      *Roles
+	km         *keyModel
 
 	// statistics for evidence
 	NPackages int
